@@ -529,6 +529,8 @@ class Phase(Angle):
         string = np.asanyarray(string)
         if string.dtype.kind not in "SU":
             raise ValueError("require string input.")
+        if string.dtype.kind == "S":
+            string = string.astype("U")
         count, frac = _parse_strings(string)
         if not (np.any(count.imag) or np.any(frac.imag)):
             count, frac = count.real, frac.real
